@@ -30,6 +30,11 @@ func (p *Prog) calls() *callIndex {
 				if c, ok := in.(ssa.CallInstruction); ok {
 					if cal := c.Common().StaticCallee(); cal != nil {
 						ci.callers[cal] = append(ci.callers[cal], c)
+					} else {
+						fs, _ := FuncValueCallees(c)
+						for _, f := range fs {
+							ci.callers[f] = append(ci.callers[f], c)
+						}
 					}
 					for _, a := range c.Common().Args {
 						if f, ok := a.(*ssa.Function); ok {
@@ -41,6 +46,11 @@ func (p *Prog) calls() *callIndex {
 							}
 						}
 					}
+					continue
+				}
+				if phi, ok := in.(*ssa.Phi); ok && calleeOnlyPhi(phi) {
+					// a local function variable (op := defaultOp; if cb != nil { op = cb }; op(...)):
+					// the functions it may hold are called at its call sites, not handed out
 					continue
 				}
 				for _, op := range in.Operands(nil) {
@@ -61,6 +71,55 @@ func (p *Prog) calls() *callIndex {
 	}
 	callIdx[p] = ci
 	return ci
+}
+
+// calleeOnlyPhi: the phi merges function values and is used for nothing but
+// being called (a local function variable choosing between a default
+// implementation and a callback).
+func calleeOnlyPhi(phi *ssa.Phi) bool {
+	if phi.Referrers() == nil {
+		return false
+	}
+	n := 0
+	for _, rf := range *phi.Referrers() {
+		switch x := rf.(type) {
+		case *ssa.DebugRef:
+		case *ssa.Call:
+			if x.Common().IsInvoke() || x.Common().Value != ssa.Value(phi) {
+				return false
+			}
+			for _, a := range x.Common().Args {
+				if a == ssa.Value(phi) {
+					return false
+				}
+			}
+			n++
+		default:
+			return false
+		}
+	}
+	return n > 0
+}
+
+// FuncValueCallees: for a call of a local function variable (a callee-only
+// phi), the declared functions of the analysed program it may hold, and
+// whether it may also hold something else (a callback).
+func FuncValueCallees(c ssa.CallInstruction) (fns []*ssa.Function, other bool) {
+	if c.Common().IsInvoke() {
+		return nil, false
+	}
+	phi, ok := c.Common().Value.(*ssa.Phi)
+	if !ok || !calleeOnlyPhi(phi) {
+		return nil, false
+	}
+	for _, e := range phi.Edges {
+		if f, ok := e.(*ssa.Function); ok && len(f.Blocks) > 0 && f.Parent() == nil {
+			fns = append(fns, f)
+		} else {
+			other = true
+		}
+	}
+	return fns, other
 }
 
 // CallersOf returns the static call sites of fn in the library.
@@ -271,15 +330,20 @@ func (p *Prog) Helpers(F *ssa.Function) []*ssa.Function {
 	seen := map[*ssa.Function]bool{F: true}
 	for i := 0; i < len(out); i++ {
 		for _, c := range Calls(out[i]) {
-			cal := c.Common().StaticCallee()
-			if cal == nil || seen[cal] || cal.Pkg != F.Pkg || !p.IsPrivateHelper(cal) {
-				continue
+			cals := []*ssa.Function{c.Common().StaticCallee()}
+			if cals[0] == nil {
+				cals, _ = FuncValueCallees(c)
 			}
-			if _, isCall := c.(*ssa.Call); !isCall {
-				continue
+			for _, cal := range cals {
+				if cal == nil || seen[cal] || cal.Pkg != F.Pkg || !p.IsPrivateHelper(cal) {
+					continue
+				}
+				if _, isCall := c.(*ssa.Call); !isCall {
+					continue
+				}
+				seen[cal] = true
+				out = append(out, cal)
 			}
-			seen[cal] = true
-			out = append(out, cal)
 		}
 	}
 	return out
